@@ -168,6 +168,7 @@ pub fn replay_value(id: &str, raw: bool, data: &[u8], clause: &str, detail: &str
         "detail": detail,
         "shrunk": false,
         "found_by": "libFuzzer",
+        "gen_version": super::CURRENT_GEN_VERSION,
         "rendered": rendered,
     });
     if raw {
